@@ -9,6 +9,7 @@ import (
 
 	"verif/harness/checks"
 	"verif/harness/chk"
+	"verif/harness/iso"
 )
 
 var registry = map[string]func(*chk.Run){
@@ -35,6 +36,10 @@ var registry = map[string]func(*chk.Run){
 }
 
 func main() {
+	if os.Getenv("VERIF_ISO_WORKER") != "" || os.Getenv("VERIF_FENCE") != "" {
+		// before anything else allocates: see iso.FenceHeap
+		iso.FenceHeap()
+	}
 	if len(os.Args) < 3 {
 		fmt.Fprintln(os.Stderr, "usage: mcx <Cxx> <quick|thorough> [--replay file]")
 		os.Exit(2)
